@@ -764,8 +764,65 @@ template<class W>
     }
 }
 
+// ---- _impl::used_digits(value, radix) for a radix other than two (numeric_limits<>::radix is only the default argument):
+// the number of base-radix digits of the value, of -1 - value when it is negative
+template<class T>
+[[gnu::noinline]] void prog_radix_digits(const char* tname, std::vector<long long> const& values, bool full)
+{
+    if (!vf::begin(std::string("radix_digits<") + tname + ">", full)) return;
+    static const int radices[] = {2, 3, 4, 5, 7, 8, 9, 10, 11, 12, 13, 14, 15, 16, 17, 36, 100, 127, 128, 255, 256, 1000};
+    for (long long v : values) {
+        if (!vf::my_row()) continue;
+        for (int r : radices) {
+            std::string const id = std::to_string(v) + ",r" + std::to_string(r);
+            if (vf::replaying() && !vf::case_selected(id)) continue;
+            unsigned long long const m = v < 0 ? ~static_cast<unsigned long long>(v) : static_cast<unsigned long long>(v);
+            int expect = 0;
+            for (unsigned long long x = m; x > 0; x /= static_cast<unsigned>(r)) ++expect;
+            int got = -1;
+            T const t = static_cast<T>(v);
+            vf::Outcome o = vf::run([&] { got = static_cast<int>(cnl::_impl::used_digits(t, r)); });
+            vf::validated(1);
+            vf::counted(r != 2);
+            const char* cls = v < 0 ? "negative" : (v == 0 ? "zero" : "positive");
+            if (!o.ok()) vf::violation(std::string("radix_digits/") + o.str() + "/" + cls, id, std::string("_impl::used_digits(") + tname + "{" + std::to_string(v) + "}, " + std::to_string(r) + "): " + o.str());
+            else if (got != expect)
+                vf::violation(std::string("value/used_digits/radix/") + cls, id, std::string("_impl::used_digits(") + tname + "{" + std::to_string(v) + "}, " + std::to_string(r) + "): expected " + std::to_string(expect) + ", got " + std::to_string(got));
+            else
+                vf::outcome(std::string("ok_radix_digits_") + cls);
+        }
+    }
+}
+
+template<class T>
+std::vector<long long> radix_values(bool full)
+{
+    std::vector<long long> out;
+    long long const lo = static_cast<long long>(std::numeric_limits<T>::lowest());
+    long long const hi = sizeof(T) == 8 && !std::is_signed_v<T> ? std::numeric_limits<long long>::max() : static_cast<long long>(std::numeric_limits<T>::max());
+    if (full) {
+        for (long long v = lo; v <= hi; ++v) out.push_back(v);
+        return out;
+    }
+    auto add = [&](long long v) { if (v >= lo && v <= hi) out.push_back(v); };
+    for (long long v = -300; v <= 300; ++v) add(v);
+    for (long long b : {2ll, 3ll, 7ll, 10ll, 12ll, 16ll, 100ll, 255ll, 256ll, 1000ll})
+        for (long long p = b; p > 0 && p <= hi / b; p *= b)
+            for (long long d = -1; d <= 1; ++d) { add(p + d); add(-(p + d)); add(-(p + d) - 1); }
+    for (long long d = 0; d < 3; ++d) { add(hi - d); add(lo + d); }
+    return out;
+}
+
 static void g_narrow()
 {
+    prog_radix_digits<i8>("int8_t", radix_values<i8>(true), true);
+    prog_radix_digits<u8>("uint8_t", radix_values<u8>(true), true);
+    prog_radix_digits<i16>("int16_t", radix_values<i16>(true), true);
+    prog_radix_digits<u16>("uint16_t", radix_values<u16>(true), true);
+    prog_radix_digits<int>("int", radix_values<int>(false), false);
+    prog_radix_digits<u32>("uint32_t", radix_values<u32>(false), false);
+    prog_radix_digits<long long>("long long", radix_values<long long>(false), false);
+    prog_radix_digits<ull64>("unsigned long long", radix_values<ull64>(false), false);
     prog_unary<u8, false>(FullSpace<u8>{});
     prog_unary<u16, false>(FullSpace<u16>{});
     prog_rot<true, u8>(FullSpace<u8>{});
